@@ -1,25 +1,34 @@
 #!/usr/bin/env python3
-"""Writes /verif/seeded/RESULTS.md from out/mutants.regress.log (one line per seeded change: exit code
-of the property's quick check on a scratch worktree with the change applied, first VIOLATION replay)."""
-import re, json, os
+"""Writes /verif/seeded/RESULTS.md from the run logs under /verif/seeded/results/ (in name order; a later
+run of the same change replaces an earlier one). A .log file holds bin/mutants output lines, a .md file
+a previously generated table."""
+import re, glob, os
 rows = {}
-for l in open('/verif/out/mutants.regress.log'):
-    m = re.match(r'_verif_seeded_(C\d+-m\d)_patch_diff (C\d+) exit=(\d+) (.*)', l.strip())
-    if not m:
-        m = re.match(r'(\S*?)(C\d+-m\d)_patch_diff (C\d+) exit=(\d+) (.*)', l.strip())
+for f in sorted(glob.glob('/verif/seeded/results/*')):
+    run = os.path.basename(f).rsplit('.', 1)[0]
+    for l in open(f):
+        l = l.strip()
+        if f.endswith('.md'):
+            m = re.match(r'\| (C\d+-m\d) \| (C\d+) \| (\d+) \| `(.*)` \|', l)
+            if m:
+                rows[m.group(1)] = (m.group(2), m.group(3), m.group(4), run)
+            continue
+        m = re.match(r'(\S*?)(C\d+-m\d)_patch_diff (C\d+) exit=(\d+) (.*)', l)
         if not m:
             continue
         sid, prop, rc, rest = m.group(2), m.group(3), m.group(4), m.group(5)
-    else:
-        sid, prop, rc, rest = m.groups()
-    v = re.search(r'VIOLATION property=\S+ replay=\S*/replay/(\S+?)\.json', rest)
-    rows[sid] = (prop, rc, v.group(1) if v else rest[:120])
+        if rc not in ('0', '1', '2'):
+            continue  # run interrupted
+        v = re.search(r'VIOLATION property=\S+ replay=\S*/replay/(\S+?)\.json', rest)
+        rows[sid] = (prop, rc, v.group(1) if v else rest[:140], run)
 out = ["# Seeded changes: result of the property's quick check with the change applied", "",
-       "Produced by `bin/mutants` (scratch worktree of /repo HEAD + patch.diff, `symgo check <property> quick`).",
-       "exit 1 = VIOLATION reported after native reproduction; see DESIGN.md 9.6 / 9.7 for the two changes that are not reported and why.", "",
-       "| change | property | exit | first reproduced assertion (harness.label.n) |", "|---|---|---|---|"]
+       "Produced by `bin/mutants` (scratch worktree of /repo HEAD + patch.diff, `symgo check <property> quick`); the logs are",
+       "in `seeded/results/` and the last column names the run a row comes from (later runs replace earlier ones).",
+       "exit 1 = VIOLATION reported after native reproduction, exit 0 = nothing reported, exit 2 = inconclusive.",
+       "DESIGN.md 9.6 - 9.8 say which assertion catches which change and explain the changes that are not reported.", "",
+       "| change | property | exit | first reproduced assertion (harness.label.n) | run |", "|---|---|---|---|---|"]
 for sid in sorted(rows):
-    p, rc, v = rows[sid]
-    out.append(f"| {sid} | {p} | {rc} | `{v}` |")
+    p, rc, v, run = rows[sid]
+    out.append(f"| {sid} | {p} | {rc} | `{v}` | {run} |")
 open('/verif/seeded/RESULTS.md', 'w').write("\n".join(out) + "\n")
-print(len(rows), "rows;", sum(1 for r in rows.values() if r[1] == '1'), "caught")
+print(len(rows), "rows;", sum(1 for r in rows.values() if r[1] == '1'), "caught;", [s for s in sorted(rows) if rows[s][1] != '1'])
